@@ -8,9 +8,11 @@ import Minicbor.Drv.Core
 open Minicbor Minicbor.Drv
 
 def dispatch (line : String) : String :=
-  match line.trimAscii.toString.splitOn " " with
+  -- words starting with `#` are annotations for the orchestrator
+  match (line.trimAscii.toString.splitOn " ").filter (fun w => !w.startsWith "#") with
   | "enc" :: w => encOp w
   | "dec" :: w => decOp w
+  | "encspec" :: w => encSpec w
   | _ => "bad-op"
 
 partial def loop (h : IO.FS.Stream) (out : IO.FS.Stream) : IO Unit := do
